@@ -1,5 +1,6 @@
 """C07 — share placement is complete, respects read-only servers, maximizes spread
-(immutable/happiness_upload.py: share_placement and helpers)."""
+(immutable/happiness_upload.py: share_placement and helpers; immutable/upload.py: PeerSelector, the caller whose
+get_share_placements() is the plan the uploader works from)."""
 import itertools
 
 ID = "C07"
@@ -11,8 +12,12 @@ DESIGN_REF = "DESIGN.md §2 C07, §3 (C07 row)"
 TECHNIQUE = ("Lean 4 theorems over an executable transcription of share_placement and its helpers (three matching phases on "
              "the shared Edmonds-Karp model of C08, homeless-share distribution with its priority queue, round-robin); "
              "differential correspondence on int ids < 8 (exact returned mapping, plus every internal _calculate_mappings / "
-             "_distribute_homeless_shares call observed inside real runs, plus the graph builders); monitor = the three "
-             "clauses of the statement with a brute-force / matching optimum")
+             "_distribute_homeless_shares call observed inside real runs, plus the graph builders); the caller PeerSelector is "
+             "modelled as a state machine (plan = share_placement of the current state) and driven through operation "
+             "histories (add_peer / add_peer_with_share / mark_readonly_peer / mark_bad_peer / get_share_placements), every "
+             "returned plan compared with the model and checked against the state; one real Tahoe2ServerSelector run per seed on "
+             "the in-process grid with a server failing allocate_buckets; monitor = the three clauses of the statement with a "
+             "brute-force / matching optimum")
 LEVEL_TEXT = ("over the model of the repaired code (fixes/C07-indexedshares.diff + fixes/C07-dropped-peer.diff): placement_total, "
               "placement_returns and readonly_only_existing proved in Lean for all inputs; spread_maximal proved per phase only "
               "(each _calculate_mappings phase ends with a maximum matching of its network, via the C08 theory) - the "
@@ -23,17 +28,23 @@ LEVEL_NOTE = ("Lean kernel + standard axioms; model hand-written, tied by corres
               "ascending; larger layouts and byte-string ids are checked at property level only")
 RULE = ("a case is one call of share_placement (or one observed internal helper call, or one direct helper call) on a generated "
         "layout; distinct = distinct (function, arguments incl. dict order); non-trivial = at least one pre-existing share "
-        "(helpers: at least one peer and one share)")
+        "(helpers: at least one peer and one share); a selector history counts one case (non-trivial = it records at least "
+        "one existing share), every get_share_placements() in it is checked; a grid selection run counts one case")
 TRUSTED = [
     "lean/Tahoe/Happiness/Placement.lean is a hand transcription of immutable/happiness_upload.py (share_placement and helpers)",
     "CPython iterates a set of ints < 8 in ascending order and PriorityQueue.get returns the least tuple (the model relies on "
     "both for the step-by-step correspondence; the property clauses are checked on byte-string ids as well)",
     "the harness observes internal calls by wrapping the module globals _calculate_mappings and _distribute_homeless_shares at run time",
+    "lean/Tahoe/Happiness/Selector.lean is a hand transcription of upload.py PeerSelector; the harness keeps its own reference "
+    "state from the meaning of the operations and never reads the plan's inputs back from the object under test",
+    "harness/grid.py (in-process grid from production classes, seeded scheduler, virtual clock) for the Tahoe2ServerSelector run",
 ]
 ASSUMPTIONS = [
     "domain of the statement: at least one writable server; writable and read-only sets disjoint; every server with "
     "pre-existing shares is in one of the two sets; pre-existing share numbers are among the shares to place "
     "(what PeerSelector builds for one encoding); entries of servers outside both sets (bad servers) are outside the domain",
+    "selector histories follow the uploader's discipline for the monitored plans (a server is marked bad only while it has no "
+    "recorded shares, as in _handle_existing_response); plans requested in other states are compared with the model only",
 ]
 
 SIG_RO = "ro-peer-assigned-share-it-lacks"
